@@ -59,7 +59,7 @@ CLAIMED = {
     "C09": dict(category="proof",
         text="Lean theorem error_identity (a non-OK reply returns the state unchanged; failed operations can be dropped from any history) on the reference model; correspondence plus an "
              "implementation-side oracle comparing full tree dumps and allocator free counts around every failing request.",
-        design_ref="DESIGN.md 5/C09", note="trusted: Lean kernel, reference model, harness; resource exhaustion (NOSPC) not yet generated",
+        design_ref="DESIGN.md 5/C09", note="trusted: Lean kernel, reference model, harness; NOSPC paths are covered by implementation-side oracles only (the model has no disk-full state)",
         technique="Lean 4 proof + correspondence + dump comparison around failures"),
     "C10": dict(category="proof",
         text="Lean theorems: the on-disk codecs (inode, directory entry, handle) are bijective on well-formed values; the inode-cache protocol keeps the cache equal to the logical "
